@@ -161,6 +161,9 @@ func (b *Base) Term(x *Exec, e ast.Expr, s St) (string, bool) {
 		}
 		return "", false
 	case *ast.CallExpr:
+		if t := s.Get(fmt.Sprintf("ct:%d", int(e.Pos()))); t != "" {
+			return t, true // a helper call that was interpreted in place (inlineCallsIn)
+		}
 		if id, ok := e.Fun.(*ast.Ident); ok && len(e.Args) == 1 {
 			if bi, ok := info.Uses[id].(*types.Builtin); ok && bi.Name() == "len" {
 				bt, ok := b.Term(x, e.Args[0], s)
@@ -470,9 +473,81 @@ func (b *Base) Branch(x *Exec, cond ast.Expr, truth bool, s St) []St {
 	}
 	var out []St
 	for _, st := range b.everyCall(x, cond, s) {
-		out = append(out, b.Refine(x, cond, truth, st)...)
+		for _, st2 := range b.inlineCallsIn(x, cond, st) {
+			out = append(out, b.Refine(x, cond, truth, st2)...)
+		}
 	}
 	return out
+}
+
+// inlineCallsIn interprets the helper calls that are operands of a condition (`count(c) > 1`):
+// each is explored in place and its result bound to a temporary term that Term() returns for the
+// call expression.  Only helpers the rule wants inlined, with one basic-typed result.
+func (b *Base) inlineCallsIn(x *Exec, cond ast.Expr, s St) []St {
+	if b.AutoInline == nil || x.Depth >= 3 || x.RetCall != nil {
+		return []St{s}
+	}
+	top := ast.Unparen(cond)
+	for {
+		u, ok := top.(*ast.UnaryExpr)
+		if !ok || u.Op != token.NOT {
+			break
+		}
+		top = ast.Unparen(u.X)
+	}
+	var calls []*ast.CallExpr
+	ast.Inspect(cond, func(n ast.Node) bool {
+		if _, ok := n.(*ast.FuncLit); ok {
+			return false
+		}
+		call, ok := n.(*ast.CallExpr)
+		if !ok || ast.Expr(call) == top {
+			return true
+		}
+		f := Callee(x.Fn.Info, call)
+		if f == nil {
+			return true
+		}
+		fi := x.Fn.P.FuncOf(f)
+		if fi == nil || fi.Decl.Body == nil || !b.autoInline(x, fi) {
+			return true
+		}
+		sig, ok := f.Type().(*types.Signature)
+		if !ok || sig.Results().Len() != 1 {
+			return true
+		}
+		if _, basic := sig.Results().At(0).Type().Underlying().(*types.Basic); !basic {
+			return true
+		}
+		calls = append(calls, call)
+		return false
+	})
+	states := []St{s}
+	for _, call := range calls {
+		fi := x.Fn.P.FuncOf(Callee(x.Fn.Info, call))
+		callee := x.Fn.P.FlowOf(fi)
+		rec := false
+		for y := x; y != nil; y = y.Parent {
+			if y.Fn == callee {
+				rec = true
+			}
+		}
+		if rec {
+			continue
+		}
+		tmp := fmt.Sprintf("$call@%d", int(call.Pos()))
+		var next []St
+		for _, st := range states {
+			x.RetCall = []string{tmp}
+			outs := b.InlineCall(x, call, fi, nil, st)
+			x.RetCall = nil
+			for _, o := range outs {
+				next = append(next, o.Set(fmt.Sprintf("ct:%d", int(call.Pos())), tmp))
+			}
+		}
+		states = dedupe(next)
+	}
+	return states
 }
 
 func relLookup(s St, l, op, r string) (bool, bool) {
